@@ -163,8 +163,9 @@ func rGenTable(rng *rand.Rand, max int) []rRoute {
 }
 
 type rServer struct {
-	e   *echo.Echo
-	out *rOutcome
+	e    *echo.Echo
+	out  *rOutcome
+	host string // non-empty: the table lives in the router of this host, registered through a sub-group of the host group
 }
 
 var rBuildCount int
@@ -176,11 +177,21 @@ func rBuild(rs []rRoute, ids []int) *rServer {
 		// every third instance routes inside the chain, behind a pass-through Pre middleware (the other entry into Router.Find)
 		s.e.Pre(func(next echo.HandlerFunc) echo.HandlerFunc { return func(c echo.Context) error { return next(c) } })
 	}
+	var hostGroup *echo.Group
+	if rBuildCount%5 == 0 {
+		// every fifth table is served for a host name, registered through Echo.Host(name).Group(""): host routing in front of it
+		s.host = "tables.example.com"
+		hostGroup = s.e.Host(s.host).Group("")
+	}
 	for k, r := range rs {
 		id := ids[k]
 		h := func(c echo.Context) error {
 			*s.out = rOutcome{status: 200, id: id, names: append([]string(nil), c.ParamNames()...), vals: append([]string(nil), c.ParamValues()...), path: c.Path()}
 			return c.NoContent(http.StatusOK)
+		}
+		if hostGroup != nil {
+			hostGroup.Add(r.method, r.pattern, h)
+			continue
 		}
 		rAdd(s.e, rBuildCount+k, r.method, r.pattern, h)
 	}
@@ -260,7 +271,9 @@ func rServeOn(e *echo.Echo, out *rOutcome, method, path, host string) (o rOutcom
 	return o
 }
 
-func (s *rServer) serve(method, path string) rOutcome { return rServeOn(s.e, s.out, method, path, "") }
+func (s *rServer) serve(method, path string) rOutcome {
+	return rServeOn(s.e, s.out, method, path, s.host)
+}
 
 // the path as the router sees it: RawPath if set, else Path
 func rRouterPath(path string) string {
